@@ -55,6 +55,8 @@ func main() {
 			cases = append(cases, Case{op, fields})
 		})
 		runAll(cases)
+	case "firstuse":
+		firstUseMain(os.Args[2:])
 	case "replay":
 		var cases []Case
 		sc := bufio.NewScanner(os.Stdin)
